@@ -947,6 +947,10 @@ impl<'a> Parser<'a> {
             }
         }
 
+        if items.is_empty() {
+            syntax_error!("expected an assignment target");
+        }
+
         if !is_tuple && items.len() == 1 {
             Ok(items.into_iter().next().unwrap())
         } else {
